@@ -40,7 +40,7 @@ import LdkModel.Generated.OnionInbFail
      instr blindedForward <enc> <bp|none> | instr blindedReceive <amt> <total> <cltv> <enc> <bp|none> <keysend|none> <invreq|none> <nt> (<type> <hex>)*
          → the serialized hop payload `HopInstr.encode` writes for these VALUES (decimal integers; generated constructors
            and generated value encodings: HighZeroBytesDroppedBigSize etc. are applied by the MODEL)
-     fwdblind <fwd|bfwd> <payload intro point|none> <update_add blinding point|none> <override (TLV 8)|none> <derived next point|none>
+     fwdblind <fwd|tfwd|bfwd> <payload intro point|none> <update_add blinding point|none> <override (TLV 8)|none> <derived next point|none>
          → none next=none | blinded <inbound point> <override|none> <intro|node> next=<outgoing blinding point|none>
            (GENERATED fwdBlinded = create_fwd_pending_htlc_info's `blinded:` field, nextBlindingPoint = channelmanager's outgoing point)
      fwdchain <first path key> <n> (<override|none> <derived|none>)*  → one `blinded …`/`none` per hop, `|`-separated, then final=<point handed to the recipient>
@@ -282,7 +282,7 @@ def c14 : Drv where
       | .plain (.attributed h c d) => ((), if showHop == "1" then showFail (.attributed h c d) else s!"attributed ? {c} {hex d}")
       | .plain d => ((), showFail d)
     | ["fwdblind", kind, intro, msgbp, ovr, derived] =>
-      let h : Option FwdHop := if kind == "fwd" then some .forward else if kind == "bfwd" then some (.blindedForward (optBytes intro) (optBytes ovr)) else none
+      let h : Option FwdHop := if kind == "fwd" then some .forward else if kind == "tfwd" then some .trampolineForward else if kind == "bfwd" then some (.blindedForward (optBytes intro) (optBytes ovr)) else none
       match h with
       | none => ((), "bad-op")
       | some h =>
